@@ -189,6 +189,7 @@ def judge_loss(case, obs):
         marks = sorted([(t, 1, s_) for (t, s_) in obs["status_log"]] + [(t, 0, "attempt-ok" if ok else "attempt-failed") for (t, ok) in attempts]
                        + [(t, -1, "app-connect") for t in obs.get("app_connect_calls", [])])
         n_failed = 0
+        over_limit = False
         for (t, _, what) in marks:
             if what == "connected":
                 n_failed = 0
@@ -198,6 +199,12 @@ def judge_loss(case, obs):
                 # an attempt counts as failed unless a 'connected' report follows it (an open that succeeds but
                 # whose handshake write fails is a failed attempt too)
                 n_failed += 1
+                if limit is not None and n_failed > limit + 1 and not obs.get("app_connect_calls") and not over_limit:
+                    over_limit = True
+                    out.append(("C17:%s:failed-not-reported" % drv, "reconnection attempt at t=%.3f is number %d since the last successful "
+                                "connection without 'failed' having been reported; configured limit %r; status log %r; attempts %r"
+                                % (t - 1000.0, n_failed, limit, [(round(a - 1000.0, 3), b) for a, b in obs["status_log"]],
+                                   [(round(a - 1000.0, 3), ok) for a, ok in attempts][:12])))
             elif what == "failed":
                 if limit is None or n_failed != limit:
                     out.append(("C17:%s:failed-after-wrong-number-of-attempts" % drv,
@@ -424,7 +431,15 @@ def loss_case(draw, driver=None):
     limit = draw(st.sampled_from([None, None, 0, 1, 3]))
     interval = draw(st.sampled_from([0.5, 1]))
     back = draw(st.sampled_from(["never", "soon", "during-wait", "late", "flaky-handshake", "lost-during-handshake",
-                                 "lost-during-handshake", "by-hand"]))
+                                 "lost-during-handshake", "by-hand", "present-but-dead"]))
+    if back == "present-but-dead" and how == "write_fails":
+        back = "never"
+    if back == "present-but-dead":
+        # the device node is back for good but every write to it fails (firmware hung): each attempt opens the node
+        # and fails at the first write of the handshake - those are failed attempts like any other
+        events.append({"t": round(t_loss + 0.35, 5), "what": "restore"})
+        events.append({"t": round(t_loss + 0.351, 5), "what": "write_fails"})
+        back = "never"
     if back == "by-hand" and how not in ("error", "eof"):
         back = "soon"
     if back == "by-hand":
